@@ -178,7 +178,7 @@ theorem route_run {src0 : List Nat} {sched : List (Nat × Ev)} {s : TState}
     (hr : run (initState src0) sched = some s) : RouteInv sched s := by
   refine run_induction (P := RouteInv) ?_ ?_ sched s hr
   · intro t; simp
-  · intro pre s t e s' hpre ih hs
+  · intro pre s t e s' hpre ih hs _
     exact route_step (tinv_reach ⟨pre, hpre⟩) ih hs
 
 /-! ### the level found owns the source -/
